@@ -554,6 +554,20 @@ class Checker:
                        % (name, src(capped[0].args[0]), src(capped[0].args[1]), src(capped[0].args[1])), line=capped[0].lineno)
                 continue
             w = wl[0]
+            # `while True: if <stop>: break; ...` is the loop `while not <stop>: ...`
+            if isinstance(w.test, ast.Constant) and w.test.value is True and w.body and isinstance(w.body[0], ast.If) and not w.body[0].orelse \
+                    and len(w.body[0].body) == 1 and isinstance(w.body[0].body[0], ast.Break) and not w.orelse:
+                stop = w.body[0].test
+                if isinstance(stop, ast.Compare) and len(stop.ops) == 1 and isinstance(stop.ops[0], (ast.Is, ast.Eq)) \
+                        and isinstance(stop.comparators[0], ast.Constant) and stop.comparators[0].value is None:
+                    go = ast.Compare(left=stop.left, ops=[ast.IsNot()], comparators=[ast.Constant(None)])
+                else:
+                    go = ast.UnaryOp(op=ast.Not(), operand=stop)
+                w2 = ast.While(test=go, body=w.body[1:], orelse=[])
+                ast.copy_location(w2, w)
+                ast.fix_missing_locations(w2)
+                body = [w2 if n is w else n for n in body]
+                w = w2
             cur = None
             t = w.test
             if isinstance(t, ast.Compare) and isinstance(t.ops[0], ast.IsNot) and isinstance(t.left, ast.Name) \
@@ -564,10 +578,37 @@ class Checker:
                 continue
             k_w = body.index(w)
             before, after = body[:k_w], body[k_w + 1:]            # by position in the body (inlined helpers keep their own line numbers)
+            # `return <walked list, possibly reversed> + [goal]` (directly or through temporaries) is `L = <reversed>; L.append(goal); return L`
+            if after and isinstance(after[-1], ast.Return) and after[-1].value is not None:
+                rv = resolved_in_block(after, after[-1].value)
+                if isinstance(rv, ast.BinOp) and isinstance(rv.op, ast.Add) and isinstance(rv.right, ast.List) and len(rv.right.elts) == 1:
+                    names_ = [x_ for x_ in ast.walk(rv.left) if isinstance(x_, ast.Name) and x_.id not in ('reversed', 'list')]
+                    if len(names_) == 1:
+                        L_ = names_[0].id
+                        chain_, grow_ = {x_.id for x_ in ast.walk(after[-1].value) if isinstance(x_, ast.Name)}, True
+                        while grow_:
+                            grow_ = False
+                            for s_ in after[:-1]:
+                                if isinstance(s_, ast.Assign) and isinstance(s_.targets[0], ast.Name) and s_.targets[0].id in chain_:
+                                    for x_ in ast.walk(s_.value):
+                                        if isinstance(x_, ast.Name) and x_.id not in chain_:
+                                            chain_.add(x_.id)
+                                            grow_ = True
+                        repl = []
+                        if not isinstance(rv.left, ast.Name):
+                            repl.append(ast.Assign(targets=[ast.Name(L_, ast.Store())], value=rv.left))
+                        repl.append(ast.Expr(ast.Call(func=ast.Attribute(ast.Name(L_, ast.Load()), 'append', ast.Load()), args=[rv.right.elts[0]], keywords=[])))
+                        repl.append(ast.Return(ast.Name(L_, ast.Load())))
+                        for r_ in repl:
+                            ast.copy_location(r_, after[-1])
+                            ast.fix_missing_locations(r_)
+                        after = [s_ for s_ in after[:-1] if not (isinstance(s_, ast.Assign) and isinstance(s_.targets[0], ast.Name)
+                                                                 and s_.targets[0].id in chain_ and s_.targets[0].id != L_)] + repl
             start = [n for n in before if isinstance(n, ast.Assign) and src(n.targets[0]) == cur]
-            ok = bool(start) and 'nearestNeighbors(PathNode(%s), 1)[0].object' % goal in src(start[-1].value)
+            start_txt = norm_text(resolved_in_block(before, start[-1].value)) if start else 'undefined'
+            ok = bool(start) and 'nearestNeighbors(PathNode(%s),1)[0].object' % goal in start_txt.replace(' ', '')
             rep.ob('R16.6', fi, 'walk starts at the tree node nearest the goal', ok,
-                   'start node is %s' % (src(start[-1].value) if start else 'undefined'), line=w.lineno)
+                   'start node is %s' % start_txt, line=w.lineno)
             ins = [c for s in w.body for c in ast.walk(s) if isinstance(c, ast.Call) and isinstance(c.func, ast.Attribute) and c.func.attr in ('insert', 'append')]
             lst = src(ins[0].func.value) if ins else None
             # root-to-node order: each position is prepended, or appended and the list reversed exactly once after the walk
